@@ -47,8 +47,21 @@ type AccessBook struct {
 	answers  []accessAnswer
 	tokens   map[string][]tokenEvent // cid -> delivered token events
 	triggers []trigger
-	reqs     map[int]*LogEntry // mq req seq -> request entry
-	stepT    []int             // step -> log time of its stimulus
+	reqs     map[int]*LogEntry   // mq req seq -> request entry
+	stepT    []int               // step -> log time of its stimulus
+	locks    map[string][][2]int // resource name -> query-event lock intervals [start,end] in log time
+}
+
+// effT returns the log time at which something that reached the gateway at t
+// through the resource's cache queue becomes processable: the queue of a
+// resource is suspended while query requests for it are outstanding (C13).
+func (b *AccessBook) effT(name string, t int) int {
+	for _, iv := range b.locks[name] {
+		if t > iv[0] && t < iv[1] {
+			return iv[1]
+		}
+	}
+	return t
 }
 
 func (t trigger) affects(cid, name string) bool {
@@ -78,8 +91,35 @@ func tokenOf(payload []byte) string {
 }
 
 func BuildAccessBook(w *World) *AccessBook {
-	b := &AccessBook{w: w, tokens: map[string][]tokenEvent{}, reqs: map[int]*LogEntry{}}
+	b := &AccessBook{w: w, tokens: map[string][]tokenEvent{}, reqs: map[int]*LogEntry{}, locks: map[string][][2]int{}}
 	log := w.Log()
+	evqPend := map[string]int{}
+	evqStart := map[string]int{}
+	evqReq := map[int]string{}
+	for i := range log {
+		e := &log[i]
+		if e.Kind == "mq_req" && strings.HasPrefix(e.Subject, "_EVQ.") {
+			n := w.qevSubjects[e.Subject]
+			if evqPend[n] == 0 {
+				evqStart[n] = e.T
+			}
+			evqPend[n]++
+			evqReq[e.Req] = n
+		}
+		if e.Kind == "mq_complete" {
+			if n, ok := evqReq[e.Req]; ok {
+				evqPend[n]--
+				if evqPend[n] == 0 {
+					b.locks[n] = append(b.locks[n], [2]int{evqStart[n], e.T})
+				}
+			}
+		}
+	}
+	for n, c := range evqPend {
+		if c > 0 {
+			b.locks[n] = append(b.locks[n], [2]int{evqStart[n], len(log) + 1})
+		}
+	}
 	lastStep := -1
 	for i := range log {
 		e := &log[i]
@@ -229,7 +269,11 @@ func (b *AccessBook) accessRequestsIn(cid, name, query string, lo, hi int) int {
 func (b *AccessBook) triggerBetween(cid, name string, lo, hi int, obligOnly bool) *trigger {
 	for i := range b.triggers {
 		t := &b.triggers[i]
-		if t.T > lo && t.T < hi && t.affects(cid, name) && (t.Oblig || !obligOnly) {
+		tt := t.T
+		if t.Kind != "token" {
+			tt = b.effT(name, tt)
+		}
+		if tt > lo && tt < hi && t.affects(cid, name) && (t.Oblig || !obligOnly) {
 			return t
 		}
 	}
@@ -586,6 +630,18 @@ func (m *MonC06) OnEnd(w *World) []Violation {
 				if directAt(c, rid, tr.T) <= 0 {
 					continue
 				}
+				// a direct subscription whose resource failed to load is an error
+				// placeholder: there is nothing to protect and no events to hold back
+				isErr := false
+				for _, h := range c.Ref.Handovers {
+					if h.RID == rid && h.T < tr.T && h.Fresh {
+						isErr = h.IsErr
+					}
+				}
+				if isErr {
+					m.class("error_placeholder_no_obligation")
+					continue
+				}
 				name, q := w.expandRID(c, rid)
 				if !tr.affects(c.CID, name) {
 					continue
@@ -686,7 +742,13 @@ func (m *MonC06) OnEnd(w *World) []Violation {
 				}
 				if !(ans.HasRes && ans.Get) {
 					m.class("verdict_denial")
-					if (zeroT >= 0 && zeroT < ans.T) || (closedT >= 0 && closedT < ans.T) {
+					// the verdict travels through the resource's cache queue, which is
+					// suspended while query requests are outstanding
+					vt := b.effT(name, ans.T)
+					if vt > ans.T {
+						m.class("verdict_delayed_by_query_lock")
+					}
+					if (zeroT >= 0 && zeroT <= vt && zeroKind != "unsubev") || (closedT >= 0 && closedT <= vt) {
 						m.class("obligation_void")
 						continue
 					}
@@ -697,7 +759,7 @@ func (m *MonC06) OnEnd(w *World) []Violation {
 					}
 					found := false
 					for _, ev := range c.Ref.Events {
-						if ev.RID == rid && ev.Event == "unsubscribe" && ev.T > ans.T && w.stepOfT(ev.T) == w.stepOfT(ans.T) {
+						if ev.RID == rid && ev.Event == "unsubscribe" && ev.T > ans.T && w.stepOfT(ev.T) == w.stepOfT(vt) {
 							found = true
 							code := ""
 							if rm := asMap(asMap(ev.Data)["reason"]); rm != nil {
